@@ -252,7 +252,7 @@ func runCheck(o *CheckOpts) int {
 	}
 
 	replayDir := filepath.Join(o.Verif, "out", "replay", o.Prop)
-	emit := func(name, kind, clause, where, status, solver, output string, tried []string) {
+	emit := func(ob *Obligation, name, kind, clause, where, status, solver, output string, tried []string) {
 		violations++
 		os.MkdirAll(replayDir, 0o755)
 		path := filepath.Join(replayDir, sanitizeFile(name)+".json")
@@ -263,7 +263,9 @@ func runCheck(o *CheckOpts) int {
 		}
 		confirmed := false
 		if status == "sat" {
-			confirmed = tryReplay(o, prog, name, output, rep)
+			if ob != nil {
+				confirmed = tryReplay(o, prog, ob, rep)
+			}
 		}
 		if status == "refuted" {
 			confirmed = true // structural/schema checkers point at the concrete site in the real code
@@ -281,14 +283,14 @@ func runCheck(o *CheckOpts) int {
 		if o.Only != "" {
 			continue
 		}
-		emit(m+"#target", "target", "contract target exists", "", "contract target not found", "", "", nil)
+		emit(nil, m+"#target", "target", "contract target exists", "", "contract target not found", "", "", nil)
 	}
 	for _, out := range outside {
-		emit(strings.SplitN(out, ": ", 2)[0]+"#subset", "subset", "function within the modelled subset", "", "outside subset", "", out, nil)
+		emit(nil, strings.SplitN(out, ": ", 2)[0]+"#subset", "subset", "function within the modelled subset", "", "outside subset", "", out, nil)
 	}
 	sort.Slice(failed, func(i, j int) bool { return failed[i].O.Name < failed[j].O.Name })
 	for _, r := range failed {
-		emit(r.O.Name, r.O.Kind, r.O.Clause, r.O.Where, r.R.Status, r.R.Solver, r.R.Output, r.R.Tried)
+		emit(r.O, r.O.Name, r.O.Kind, r.O.Clause, r.O.Where, r.R.Status, r.R.Solver, r.R.Output, r.R.Tried)
 	}
 	for _, k := range known.Findings {
 		if k.Property == o.Prop && knownHit[k.Obligation] {
@@ -296,12 +298,12 @@ func runCheck(o *CheckOpts) int {
 		}
 	}
 	if total == 0 && o.Only == "" {
-		emit("no-obligations", "vacuity", "at least one obligation generated", "", "no obligations", "", "", nil)
+		emit(nil, "no-obligations", "vacuity", "at least one obligation generated", "", "no obligations", "", "", nil)
 	}
 	for _, cf := range coverFail {
 		notes = append(notes, "vacuity warning: cover "+cf+" is unsatisfiable")
 		if strings.Contains(cf, "#requires-sat") {
-			emit(cf, "vacuity", "preconditions satisfiable", "", "unsat", "", "", nil)
+			emit(nil, cf, "vacuity", "preconditions satisfiable", "", "unsat", "", "", nil)
 		}
 	}
 
